@@ -429,11 +429,12 @@ def inline_module(tree, modname):
                     while i < len(stmts):
                         s = stmts[i]
                         rep = None
-                        # f(helper(...)) with helper the sole argument of a plain call: the helper's result is named first
+                        # f(helper(...), names..) with helper the first argument of a plain call and only names after it: the helper's result is named first
                         # (`t = helper(...)`; `... f(t)`), which is the same evaluation order, so that it can be expanded below
                         v0 = getattr(s, "value", None)
                         if isinstance(s, (ast.Assign, ast.Return, ast.Expr)) and isinstance(v0, ast.Call) and match(v0) is None \
-                                and len(v0.args) == 1 and not v0.keywords and isinstance(v0.args[0], ast.Call) and match(v0.args[0]) is not None \
+                                and len(v0.args) >= 1 and not v0.keywords and isinstance(v0.args[0], ast.Call) and match(v0.args[0]) is not None \
+                                and all(isinstance(a_, (ast.Name, ast.Constant)) for a_ in v0.args[1:]) \
                                 and _inlinable(match(v0.args[0])) and not _pure_decision(match(v0.args[0])) \
                                 and (isinstance(v0.func, ast.Name) or (isinstance(v0.func, ast.Attribute) and (_is_chain(v0.func) or isinstance(v0.func.value, ast.Constant)))):
                             tmpn = "%s__val" % match(v0.args[0]).name.lstrip("_")
@@ -860,46 +861,63 @@ def _propagate_self_snapshots(fn):
 
     def scan(stmts, x, dirty):
         """returns (ok, dirty_after, uses_seen)"""
+        ok, d, seen, _term = scan4(stmts, x, dirty)
+        return ok, d, seen
+
+    def scan4(stmts, x, dirty):
+        """returns (ok, dirty_after, uses_seen, terminated): a block that ends in continue / break / return / raise hands nothing on
+        to the statements after the `if` it is an arm of"""
         seen = 0
         for st in stmts:
             m = mentions(st, x)
             if dirty:
                 if m:
-                    return False, True, seen
+                    return False, True, seen, False
+                if isinstance(st, (ast.Continue, ast.Break, ast.Return, ast.Raise)):
+                    return True, True, seen, True
                 continue
+            if isinstance(st, (ast.Continue, ast.Break)):
+                return True, dirty, seen, True
             if isinstance(st, ast.If):
                 if has_exec(st.test):
                     if mentions(st.test, x):
-                        return False, True, seen
+                        return False, True, seen, False
                     d0 = True
                 else:
                     seen += mentions(st.test, x)
                     d0 = False
-                ok1, d1, s1 = scan(st.body, x, d0)
-                ok2, d2, s2 = scan(st.orelse, x, d0)
+                ok1, d1, s1, t1 = scan4(st.body, x, d0)
+                ok2, d2, s2, t2 = scan4(st.orelse, x, d0)
                 if not (ok1 and ok2):
-                    return False, True, seen
+                    return False, True, seen, False
                 seen += s1 + s2
-                dirty = d1 or d2
+                if t1 and t2:
+                    return True, True, seen, True
+                dirty = (d1 and not t1) or (d2 and not t2)
                 continue
             if isinstance(st, (ast.Expr, ast.Assign, ast.Return, ast.Raise, ast.AugAssign, ast.AnnAssign, ast.Assert, ast.Pass, ast.Delete)):
+                term = isinstance(st, (ast.Return, ast.Raise))
                 if not has_exec(st):
                     seen += m
+                    if term:
+                        return True, dirty, seen, True
                     continue
                 # one outermost call whose arguments contain no further call: the arguments are evaluated before it runs
                 v = st.value if isinstance(st, (ast.Expr, ast.Assign, ast.Return, ast.AnnAssign)) else (st.exc if isinstance(st, ast.Raise) else None)
                 if m:
                     if not (isinstance(v, ast.Call) and not has_exec(v.func) and not any(has_exec(a) for a in list(v.args) + [k.value for k in v.keywords])
                             and (not isinstance(st, ast.Assign) or all(isinstance(t, ast.Name) for t in st.targets))):
-                        return False, True, seen
+                        return False, True, seen, False
                     seen += m
                 dirty = True
+                if term:
+                    return True, True, seen, True
                 continue
             # loops, try, with, ...: anything may run
             if m:
-                return False, True, seen
+                return False, True, seen, False
             dirty = True
-        return True, dirty, seen
+        return True, dirty, seen, False
 
     def rewrite(stmts):
         k = 0
@@ -1465,6 +1483,75 @@ def _kwargs_to_positional(tree):
         c.keywords = []
 
 
+def call_fingerprint(fn):
+    """{"arity": number of parameters, "calls": sorted names of what the function calls (attribute or function names)}"""
+    calls = set()
+    for y in ast.walk(fn):
+        if isinstance(y, ast.Call):
+            f = y.func
+            if isinstance(f, ast.Attribute):
+                calls.add(f.attr)
+            elif isinstance(f, ast.Name):
+                calls.add(f.id)
+    a = fn.args
+    return {"arity": len(a.posonlyargs) + len(a.args) + len(a.kwonlyargs) + (1 if a.vararg else 0) + (1 if a.kwarg else 0), "calls": sorted(calls)}
+
+
+_fingerprints = None
+
+
+def unrename_module(tree, modname):
+    """A private method of the baseline list that has vanished from its class, while the class has a new private method with the same
+    arity that calls (almost) the same things, was renamed: the new name is mapped back (definition, `self.<name>` references in the
+    class), so that the rules - which know some methods by the role their baseline name stands for - and the inliner (which would
+    expand a "new" helper at its call sites) see the method they know.  Returns {class name: {new name: baseline name}}.  The
+    pairing must be unambiguous both ways; anything else is left alone."""
+    global _fingerprints
+    if _fingerprints is None:
+        import json
+        p = os.path.join(HERE, "baseline_fingerprints.json")
+        _fingerprints = json.load(open(p)) if os.path.exists(p) else {}
+    out = {}
+    for cls in [n for n in tree.body if isinstance(n, ast.ClassDef)]:
+        present = dict((n.name, n) for n in cls.body if isinstance(n, ast.FunctionDef))
+        prefix = "%s.%s." % (modname, cls.name)
+        vanished = [q_[len(prefix):] for q_ in _fingerprints if q_.startswith(prefix) and q_[len(prefix):] not in present]
+        fresh = [n for n in present if (prefix + n) not in baseline() and n.startswith("_") and not n.startswith("__")]
+        if not vanished or not fresh:
+            continue
+
+        def score(new, old):
+            fp_new, fp_old = call_fingerprint(present[new]), _fingerprints[prefix + old]
+            if fp_new["arity"] != fp_old["arity"]:
+                return 0.0
+            # calls of other renamed methods do not count against the match
+            a = set(fp_new["calls"]) - set(fresh)
+            b = set(fp_old["calls"]) - set(vanished)
+            if not a and not b:
+                return 1.0
+            return len(a & b) / float(len(a | b))
+        pairs = {}
+        for new in fresh:
+            cands = [(score(new, old), old) for old in vanished]
+            cands = sorted([c for c in cands if c[0] >= 0.6], reverse=True)
+            if cands and (len(cands) == 1 or cands[0][0] > cands[1][0]):
+                pairs[new] = cands[0][1]
+        # unambiguous both ways
+        taken = {}
+        for new, old in pairs.items():
+            taken.setdefault(old, []).append(new)
+        mapping = dict((news[0], old) for old, news in taken.items() if len(news) == 1)
+        if not mapping:
+            continue
+        for n in ast.walk(cls):
+            if isinstance(n, ast.FunctionDef) and n.name in mapping and n in cls.body:
+                n.name = mapping[n.name]
+            elif isinstance(n, ast.Attribute) and isinstance(n.value, ast.Name) and n.value.id == "self" and n.attr in mapping:
+                n.attr = mapping[n.attr]
+        out[cls.name] = mapping
+    return out
+
+
 def _partial_to_def(tree):
     """T = functools.partial(F, *bound, **named), F a module-level function of this module with a plain signature, becomes
     `def T(<unbound leading parameters>): return F(<all parameters>)`: the key-function / callback rules then see an ordinary function.
@@ -1518,6 +1605,76 @@ def _partial_to_def(tree):
                 walk(h.body)
     for fn in [n for n in tree.body if isinstance(n, (ast.FunctionDef, ast.AsyncFunctionDef))]:
         walk(fn.body)
+
+
+def _partial_method_to_def(tree):
+    """Inside a method, `functools.partial(self.M, a, b)` used as an argument - M a method of the same class with a plain signature,
+    a and b plain local names that are not rebound afterwards - becomes a nested `def M__bound(<remaining parameters>): <M's body with
+    its leading parameters replaced by a, b>` placed before the statement: the closure the author could have written in place (the
+    callback rules then see an ordinary nested function; `self` is the enclosing method's)."""
+    for cls in [n for n in tree.body if isinstance(n, ast.ClassDef)]:
+        methods = dict((n.name, n) for n in cls.body if isinstance(n, ast.FunctionDef) and _simple_sig(n) and not n.decorator_list)
+        for fn in [n for n in cls.body if isinstance(n, ast.FunctionDef)]:
+            if not fn.args.args or fn.args.args[0].arg != "self":
+                continue
+            rebinds = {}
+            for y in ast.walk(fn):
+                if isinstance(y, ast.Name) and isinstance(y.ctx, (ast.Store, ast.Del)):
+                    rebinds[y.id] = rebinds.get(y.id, 0) + 1
+
+            def visit(stmts):
+                k = 0
+                while k < len(stmts):
+                    st = stmts[k]
+                    for fld in ("body", "orelse", "finalbody"):
+                        sub = getattr(st, fld, None)
+                        if isinstance(sub, list) and not isinstance(st, (ast.FunctionDef, ast.AsyncFunctionDef, ast.ClassDef)):
+                            visit(sub)
+                    for h in getattr(st, "handlers", []) or []:
+                        visit(h.body)
+                    if isinstance(st, (ast.Expr, ast.Assign, ast.Return)):
+                        for c in [y for y in ast.walk(st) if isinstance(y, ast.Call)]:
+                            if ast.unparse(c.func) not in ("functools.partial", "partial") or not c.args or c.keywords:
+                                continue
+                            f0 = c.args[0]
+                            if not (isinstance(f0, ast.Attribute) and isinstance(f0.value, ast.Name) and f0.value.id == "self" and f0.attr in methods and methods[f0.attr] is not fn):
+                                continue
+                            M = methods[f0.attr]
+                            params = [a.arg for a in M.args.args][1:]
+                            bound = c.args[1:]
+                            if len(bound) > len(params) or M.args.defaults or not all(isinstance(b, ast.Name) and rebinds.get(b.id, 0) <= 1 for b in bound):
+                                continue
+                            stored = set(y.id for y in ast.walk(M) if isinstance(y, ast.Name) and isinstance(y.ctx, (ast.Store, ast.Del)))
+                            if stored & set(params) or any(isinstance(y, (ast.Yield, ast.YieldFrom, ast.Await)) for y in ast.walk(M)):
+                                continue
+                            name = "%s__bound" % M.name.lstrip("_")
+                            if any(isinstance(y, ast.Name) and y.id == name for y in ast.walk(fn)):
+                                continue
+                            mapping = dict(zip(params, bound))
+
+                            class Sub(ast.NodeTransformer):
+                                def visit_Name(self, node):
+                                    if isinstance(node.ctx, ast.Load) and node.id in mapping:
+                                        return ast.copy_location(copy.deepcopy(mapping[node.id]), node)
+                                    return node
+                            body = [Sub().visit(copy.deepcopy(b)) for b in M.body if not (isinstance(b, ast.Expr) and isinstance(b.value, ast.Constant))] or [ast.Pass()]
+                            new = ast.FunctionDef(name=name, args=ast.arguments(posonlyargs=[], args=[ast.arg(arg=p) for p in params[len(bound):]], vararg=None, kwonlyargs=[],
+                                                                                kw_defaults=[], kwarg=None, defaults=[]),
+                                                  body=body, decorator_list=[], returns=None, type_comment=None, type_params=[])
+                            ast.copy_location(new, st)
+                            ast.fix_missing_locations(new)
+                            ref = ast.copy_location(ast.Name(id=name, ctx=ast.Load()), c)
+                            for par in ast.walk(st):
+                                for fld, val in ast.iter_fields(par):
+                                    if val is c:
+                                        setattr(par, fld, ref)
+                                    elif isinstance(val, list) and any(x is c for x in val):
+                                        val[:] = [ref if x is c else x for x in val]
+                            stmts[k:k] = [new]
+                            k += 1
+                            break
+                    k += 1
+            visit(fn.body)
 
 
 def _closure_factory_to_def(tree):
@@ -1634,6 +1791,174 @@ def _drop_self_assign(fn):
     process(fn.body)
 
 
+def _reverse_then_for(fn):
+    """`X.reverse()` directly before `for v in X:` (or `for v in reversed(X):`), where X is a local list bound once in this function
+    to a fresh copy (a slice or list(...)) and mentioned nowhere after the reverse() but in the loop header, is `for v in reversed(X)`
+    (`for v in X`): the in-place reversal of a private copy nobody else sees."""
+    stores = {}
+    for n in ast.walk(fn):
+        if isinstance(n, ast.Name) and isinstance(n.ctx, (ast.Store, ast.Del)):
+            stores[n.id] = stores.get(n.id, 0) + 1
+    fresh = set()
+    for n in ast.walk(fn):
+        if isinstance(n, ast.Assign) and len(n.targets) == 1 and isinstance(n.targets[0], ast.Name) and stores.get(n.targets[0].id) == 1:
+            v = n.value
+            if (isinstance(v, ast.Subscript) and isinstance(v.slice, ast.Slice)) or (isinstance(v, ast.Call) and isinstance(v.func, ast.Name) and v.func.id in ("list", "sorted")):
+                fresh.add(n.targets[0].id)
+
+    def visit(stmts):
+        k = 0
+        while k + 1 < len(stmts):
+            a = stmts[k]
+            j = k + 1
+            if isinstance(a, ast.Expr) and isinstance(a.value, ast.Call) and isinstance(a.value.func, ast.Attribute) and a.value.func.attr == "reverse" \
+                    and isinstance(a.value.func.value, ast.Name):
+                # plain assignments that run nothing and do not mention the list may stand in between
+                while j < len(stmts) and isinstance(stmts[j], ast.Assign) and not any(isinstance(y, (ast.Call, ast.Yield, ast.YieldFrom, ast.Await)) or
+                                                                                       (isinstance(y, ast.Name) and y.id == a.value.func.value.id) for y in ast.walk(stmts[j])):
+                    j += 1
+            b = stmts[j] if j < len(stmts) else None
+            if isinstance(a, ast.Expr) and isinstance(a.value, ast.Call) and isinstance(a.value.func, ast.Attribute) and a.value.func.attr == "reverse" \
+                    and not a.value.args and not a.value.keywords and isinstance(a.value.func.value, ast.Name) and a.value.func.value.id in fresh and isinstance(b, ast.For):
+                x = a.value.func.value.id
+                it = b.iter
+                plain = isinstance(it, ast.Name) and it.id == x
+                wrapped = isinstance(it, ast.Call) and isinstance(it.func, ast.Name) and it.func.id == "reversed" and len(it.args) == 1 \
+                    and isinstance(it.args[0], ast.Name) and it.args[0].id == x
+                later = sum(1 for st in stmts[j + 1:] for y in ast.walk(st) if isinstance(y, ast.Name) and y.id == x)
+                inside = sum(1 for st in b.body + b.orelse for y in ast.walk(st) if isinstance(y, ast.Name) and y.id == x)
+                if (plain or wrapped) and not later and not inside:
+                    if plain:
+                        b.iter = ast.copy_location(ast.Call(func=ast.Name(id="reversed", ctx=ast.Load()), args=[ast.Name(id=x, ctx=ast.Load())], keywords=[]), it)
+                    else:
+                        b.iter = ast.copy_location(ast.Name(id=x, ctx=ast.Load()), it)
+                    ast.fix_missing_locations(b)
+                    del stmts[k]
+                    continue
+            k += 1
+        for st in stmts:
+            for fld in ("body", "orelse", "finalbody"):
+                sub = getattr(st, fld, None)
+                if isinstance(sub, list) and not isinstance(st, (ast.FunctionDef, ast.AsyncFunctionDef, ast.ClassDef)):
+                    visit(sub)
+            for h in getattr(st, "handlers", []) or []:
+                visit(h.body)
+    visit(fn.body)
+
+
+def _fold_bool_chain(fn):
+    """   x = A                      x = A
+          if x:                      if not x:
+              x = B                      x = B
+    are `x = A and B` / `x = A or B` (exactly: the short-circuit value of the chain), applied bottom-up and repeatedly, so that a
+    condition spelled out one operand at a time (`ok = hasattr(e, a); if ok: ok = isinstance(e.a, T); ...`) is the condition again."""
+    def fold(stmts):
+        for st in stmts:
+            for fld in ("body", "orelse", "finalbody"):
+                sub = getattr(st, fld, None)
+                if isinstance(sub, list) and not isinstance(st, (ast.FunctionDef, ast.AsyncFunctionDef, ast.ClassDef)):
+                    fold(sub)
+            for h in getattr(st, "handlers", []) or []:
+                fold(h.body)
+        k = 0
+        while k + 1 < len(stmts):
+            a, b = stmts[k], stmts[k + 1]
+            if isinstance(a, ast.Assign) and len(a.targets) == 1 and isinstance(a.targets[0], ast.Name) and isinstance(b, ast.If) and not b.orelse and len(b.body) == 1:
+                x = a.targets[0].id
+                t, neg = b.test, False
+                if isinstance(t, ast.UnaryOp) and isinstance(t.op, ast.Not):
+                    t, neg = t.operand, True
+                c = b.body[0]
+                if isinstance(t, ast.Name) and t.id == x and isinstance(c, ast.Assign) and len(c.targets) == 1 and isinstance(c.targets[0], ast.Name) and c.targets[0].id == x \
+                        and not any(isinstance(y, ast.Name) and y.id == x for y in ast.walk(c.value)) and not any(isinstance(y, (ast.Yield, ast.YieldFrom, ast.Await)) for y in ast.walk(c.value)):
+                    op = ast.Or if neg else ast.And
+                    left = a.value
+                    vals = (list(left.values) if isinstance(left, ast.BoolOp) and isinstance(left.op, op) else [left]) + \
+                           (list(c.value.values) if isinstance(c.value, ast.BoolOp) and isinstance(c.value.op, op) else [c.value])
+                    a.value = ast.copy_location(ast.BoolOp(op=op(), values=vals), a.value)
+                    ast.fix_missing_locations(a)
+                    del stmts[k + 1]
+                    continue
+            k += 1
+    fold(fn.body)
+
+
+def _merge_isinstance_or(fn):
+    """`isinstance(x, A) or isinstance(x, B)` is `isinstance(x, (A, B))` for a plain name x (same tests, same order)."""
+    class T(ast.NodeTransformer):
+        def visit_BoolOp(self, node):
+            self.generic_visit(node)
+            if not isinstance(node.op, ast.Or):
+                return node
+            vals = node.values
+
+            def isi(e):
+                return isinstance(e, ast.Call) and isinstance(e.func, ast.Name) and e.func.id == "isinstance" and len(e.args) == 2 and not e.keywords and isinstance(e.args[0], ast.Name)
+            if len(vals) >= 2 and all(isi(v) for v in vals) and len(set(v.args[0].id for v in vals)) == 1:
+                classes = []
+                for v in vals:
+                    classes.extend(v.args[1].elts if isinstance(v.args[1], ast.Tuple) else [v.args[1]])
+                new = ast.Call(func=ast.Name(id="isinstance", ctx=ast.Load()), args=[vals[0].args[0], ast.Tuple(elts=classes, ctx=ast.Load())], keywords=[])
+                return ast.fix_missing_locations(ast.copy_location(new, node))
+            return node
+    T().visit(fn)
+
+
+def _unroll_const_for(fn):
+    """`for v in ("a", "b"): BODY` over a short tuple/list display of constants, where BODY has no break/continue/else, does not
+    assign v and v is not read after the loop, is BODY with v = "a" followed by BODY with v = "b" (the constants substituted).
+    `getattr(x, "name")` with a constant identifier that is not a keyword is `x.name`."""
+    import keyword
+
+    def simple(body):
+        for st in body:
+            for y in ast.walk(st):
+                if isinstance(y, (ast.Break, ast.Continue, ast.FunctionDef, ast.AsyncFunctionDef, ast.Lambda, ast.ClassDef, ast.Yield, ast.YieldFrom, ast.Await)):
+                    return False
+        return True
+
+    def visit(stmts):
+        k = 0
+        while k < len(stmts):
+            st = stmts[k]
+            for fld in ("body", "orelse", "finalbody"):
+                sub = getattr(st, fld, None)
+                if isinstance(sub, list) and not isinstance(st, (ast.FunctionDef, ast.AsyncFunctionDef, ast.ClassDef)):
+                    visit(sub)
+            for h in getattr(st, "handlers", []) or []:
+                visit(h.body)
+            if isinstance(st, ast.For) and isinstance(st.target, ast.Name) and isinstance(st.iter, (ast.Tuple, ast.List)) and 1 <= len(st.iter.elts) <= 4 \
+                    and all(isinstance(e, ast.Constant) for e in st.iter.elts) and not st.orelse and simple(st.body):
+                v = st.target.id
+                stored = any(isinstance(y, ast.Name) and y.id == v and isinstance(y.ctx, (ast.Store, ast.Del)) for b in st.body for y in ast.walk(b))
+                later = any(isinstance(y, ast.Name) and y.id == v for later_st in stmts[k + 1:] for y in ast.walk(later_st))
+                if not stored and not later:
+                    out = []
+                    for c in st.iter.elts:
+                        class Sub(ast.NodeTransformer):
+                            def visit_Name(self, node):
+                                if node.id == v and isinstance(node.ctx, ast.Load):
+                                    return ast.copy_location(ast.Constant(value=c.value), node)
+                                return node
+                        for b in st.body:
+                            out.append(ast.fix_missing_locations(Sub().visit(copy.deepcopy(b))))
+                    stmts[k:k + 1] = out
+                    k += len(out)
+                    continue
+            k += 1
+    visit(fn.body)
+
+    class G(ast.NodeTransformer):
+        def visit_Call(self, node):
+            self.generic_visit(node)
+            if isinstance(node.func, ast.Name) and node.func.id == "getattr" and len(node.args) == 2 and not node.keywords and isinstance(node.args[1], ast.Constant) \
+                    and isinstance(node.args[1].value, str) and node.args[1].value.isidentifier() and not keyword.iskeyword(node.args[1].value):
+                return ast.copy_location(ast.Attribute(value=node.args[0], attr=node.args[1].value, ctx=ast.Load()), node)
+            return node
+    G().visit(fn)
+    ast.fix_missing_locations(fn)
+
+
 def _for_over_temp(fn):
     """   t = a.b.c                    A local that names an attribute chain (no call) for the loop right after it, and is mentioned
           for x in t: ...   ->  for x in a.b.c: ...     nowhere else, is the chain itself: the iterable is evaluated once, at the same point."""
@@ -1741,10 +2066,14 @@ def _parallel_counter_to_index(fn):
 def normalize_module(tree):
     _kwargs_to_positional(tree)
     _partial_to_def(tree)
+    _partial_method_to_def(tree)
     _closure_factory_to_def(tree)
     for fn in [n for n in ast.walk(tree) if isinstance(n, (ast.FunctionDef, ast.AsyncFunctionDef))]:
         _lower_ifexp(fn)
     for fn in [n for n in ast.walk(tree) if isinstance(n, (ast.FunctionDef, ast.AsyncFunctionDef))]:
+        _fold_bool_chain(fn)
+        _merge_isinstance_or(fn)
+        _unroll_const_for(fn)
         _lower_bool_flags(fn)
     for fn in [n for n in ast.walk(tree) if isinstance(n, (ast.FunctionDef, ast.AsyncFunctionDef))]:
         _sink_flag_test(fn)
@@ -1752,6 +2081,7 @@ def normalize_module(tree):
         _index_loop_to_for(fn)
     for fn in [n for n in ast.walk(tree) if isinstance(n, (ast.FunctionDef, ast.AsyncFunctionDef))]:
         _parallel_counter_to_index(fn)
+        _reverse_then_for(fn)
         _for_over_temp(fn)
     for fn in [n for n in ast.walk(tree) if isinstance(n, (ast.FunctionDef, ast.AsyncFunctionDef))]:
         _inline_single_use_temps(fn)
